@@ -60,6 +60,7 @@ type workerOut struct {
 	Violations []evid.Violation     `json:"violations"`
 	Known      known                `json:"known,omitempty"`
 	Diag       *diagResult          `json:"diag,omitempty"`
+	ElapsedMs  int64                `json:"elapsed_ms"`
 }
 
 func (o *workerOut) stat(n string) *seedStat {
@@ -73,6 +74,7 @@ func (o *workerOut) stat(n string) *seedStat {
 
 func runWorker(r *evid.Run, js string) {
 	runtime.MemProfileRate = 0
+	t0 := time.Now()
 	var j job
 	if err := json.Unmarshal([]byte(js), &j); err != nil {
 		evid.Fatalf("job: %v", err)
@@ -155,6 +157,7 @@ func runWorker(r *evid.Run, js string) {
 			}
 		}
 		out.Done = !out.Expired
+		out.ElapsedMs = time.Since(t0).Milliseconds()
 		par.Emit(out)
 	case "diag":
 		// single case, announcing every read site and value, so that the parent can name the
@@ -405,6 +408,14 @@ func main() {
 				if err := json.Unmarshal(res.Out, &wo); err != nil {
 					evid.Fatalf("worker output: %v\n%s", err, res.Stderr)
 				}
+				if os.Getenv("VERIF_C02_DEBUG") != "" && wo.ElapsedMs > 5000 {
+					var ns []string
+					for n, st := range wo.PerSeed {
+						ns = append(ns, fmt.Sprintf("%s:%d", n, st.Cases))
+					}
+					sort.Strings(ns)
+					fmt.Fprintf(os.Stderr, "  slow job %.1fs viol=%d %v\n", float64(wo.ElapsedMs)/1000, len(wo.Violations), ns)
+				}
 				for _, n := range wo.Invalid {
 					invalid = append(invalid, n+": baseline decode failed in worker")
 				}
@@ -514,12 +525,12 @@ func main() {
 			pending = next
 		}
 	}
-	jobSize := 3000
+	size1, size2 := 1000, 2000
 	if r.Thorough() {
-		jobSize = 60000
+		size1, size2 = 20000, 60000
 	}
-	runJobs(pack(ph1, jobSize/3))
-	runJobs(pack(ph2, jobSize))
+	runJobs(pack(ph1, size1))
+	runJobs(pack(ph2, size2))
 
 	// merge violations in a deterministic order: by signature, measured artefacts first, then by
 	// seed and label
@@ -613,7 +624,7 @@ func main() {
 		"distinct_nontrivial": len(distinct),
 		"rule": "per seed (valid encoding produced by the repository's serialisers): every truncation, every single-field substitution over the boundary alphabet " +
 			"(fields = 1/2/4/8-byte reads seen by the tracking reader; 1-byte fields also replaced by 3/5/9-byte var-int encodings, canonical and non-canonical), " +
-			"every single-byte substitution over a 16-value alphabet (thorough: 256 values and all field pairs over a reduced menu). " +
+			"quick: every single-byte substitution of every field byte and of the first 64 bytes over the 8-value alphabet {00,01,02,7f,80,fd,fe,ff}; thorough: every byte × 256 values and all field pairs over a reduced menu. " +
 			"distinct_nontrivial = distinct (seed, outcome class) pairs where the decoder got past its first read; outcome class = ok@reads / err@reads / panic / eofloop / suppressed / died",
 		"exhaustive":                   exhaustive,
 		"seeds":                        nSeeds,
